@@ -453,4 +453,100 @@ example :
 example : FixedOrFr 200 (.px 10, .px 30) ∧ FixedOrFr 200 (.pct 25, .pct 25) ∧ FixedOrFr 200 (.auto, .fr 3) :=
   ⟨.fixed _ _ 10 30 rfl rfl, .fixed _ _ _ _ rfl rfl, .fr 3 (by decide +kernel)⟩
 
+/-- the flex factors of fixed / flexible tracks add up to something non-negative -/
+theorem frSum_nonneg_general (b : Rat) (fns : List (Breadth × Breadth)) (hfns : ∀ fn ∈ fns, FixedOrFr b fn) :
+    0 ≤ frSum fns := by
+  induction fns with
+  | nil => simp [frSum]
+  | cons fn rest ih =>
+    have hr := ih (fun f hf => hfns f (by simp [hf]))
+    simp only [frSum]
+    cases hfns fn (by simp) with
+    | fixed mn mx a c ha hb =>
+      have : frValue mx = 0 := by cases mx <;> simp_all [lenOf, frValue]
+      simp only [this]; grind
+    | fr f h => simp only [frValue]; grind
+
+/-- `tracks_partition`, no overflow (the clause of the `tracks_fit_violation` oracle, for all inputs of the model):
+for arbitrary lists of fixed (`px`, `%`, `minmax()` of those) and `fr` tracks — *whatever the sum of the flex factors,
+none included* —, no item contribution, a definite container size `b` in which the minimum sizes and gaps fit with
+room to spare (`hpos`), `_resolve_tracks_sizes` succeeds and the tracks and gaps never exceed the container: 1.3 hands
+to 1.4 exactly what it did not use (`maximize_conserves`) and 1.4 hands out at most that.  `_partial`: stated without
+step 1.5 (content alignment other than `normal` / `stretch`; with them the rest goes to the `auto` minimums) and for
+`left > 0` (with nothing left after 1.3 the tracks are those of 1.3 and fill the container). -/
+theorem tracks_no_overflow_partial (fns : List (Breadth × Breadth)) (b gap : Rat) (start : Int) (dirX : Bool)
+    (hfns : ∀ fn ∈ fns, FixedOrFr b fn) (hne : fns ≠ [])
+    (free : Rat) (hfree : free = tracksFree b gap (fns.map (prepG b))) (hpos : free > 0)
+    (T1 : List TSize) (left : Rat)
+    (hmax : maximize (free / (fns.map (prepG b)).length) (fns.map (prepG b)) free = (T1, left))
+    (hleft : left > 0) :
+    resolveTracks fns (some b) [] start dirX gap false =
+      .ok ((List.zip T1 fns).map (expandG (left / max 1 (frSum fns)))) ∧
+    sumBase ((List.zip T1 fns).map (expandG (left / max 1 (frSum fns)))) + ((fns.length : Int) - 1 : Int) * gap ≤ b := by
+  have hS0 : 0 ≤ frSum fns := frSum_nonneg_general b fns hfns
+  have hm1 : (1 : Rat) ≤ max 1 (frSum fns) := by rw [Rat.max_def]; split <;> grind
+  have hmS : frSum fns ≤ max 1 (frSum fns) := by rw [Rat.max_def]; split <;> grind
+  have hmpos : max 1 (frSum fns) > 0 := by grind
+  have hmne : max 1 (frSum fns) ≠ 0 := by grind
+  have hff : 0 ≤ left / max 1 (frSum fns) := Rat.le_of_lt (rat_div_pos' _ _ hleft hmpos)
+  have hlen0 : (fns.map (prepG b)).length ≠ 0 := by
+    rw [List.length_map]; cases fns <;> simp_all
+  have hd : free / ((fns.map (prepG b)).length : Nat) > 0 := by
+    have : (0 : Rat) < ((fns.map (prepG b)).length : Nat) := by
+      have := Nat.pos_of_ne_zero hlen0
+      exact_mod_cast this
+    exact rat_div_pos' _ _ hpos this
+  have hbounded : Forall₂' Bounded (fns.map (prepG b)) T1 := by
+    have := maximize_bounded _ (Rat.le_of_lt hd) (fns.map (prepG b)) free
+    rw [hmax] at this; exact this
+  have hlenT : T1.length = fns.length := by
+    have := maximize_length (free / ((fns.map (prepG b)).length : Nat)) (fns.map (prepG b)) free
+    rw [hmax] at this; simpa using this
+  have hok : FrOk (List.zip T1 fns) := frOk_of_bounded b fns T1 hfns hbounded
+  have hz := zip_fst_snd T1 fns hlenT
+  have hcons : sumBase T1 + left = sumBase (fns.map (prepG b)) + free := by
+    have := maximize_conserves (free / ((fns.map (prepG b)).length : Nat)) (fns.map (prepG b)) free
+    rw [hmax] at this; exact this
+  refine ⟨?_, ?_⟩
+  · unfold resolveTracks
+    simp only [prepare_empty_general, bind, Except.bind, Option.map_some, ← hfree]
+    have hstep : maximizeStep (fns.map (prepG b)) (some free) = .ok (T1, some left) := by
+      unfold maximizeStep
+      simp only [hpos, if_true, beq_iff_eq, hlen0, if_false, hmax, pure, Except.pure]
+    rw [hstep]
+    simp only []
+    have hpass : frPass (List.zip T1 fns) [] left = (left / max 1 (frSum fns), [], left, true) := by
+      unfold frPass
+      simp only [frLeftover_zero _ hok, frFactorSum_general, hz.2]
+      have h0 : left + 0 = left := by grind
+      rw [h0, frMark_general _ hff _ hok]
+    have hflex : flexStep (List.zip T1 fns) (some left) = .ok (left / max 1 (frSum fns), [], some left) := by
+      unfold flexStep
+      have : ¬ (left ≤ 0) := by grind
+      simp only [this, if_false]
+      unfold frLoop
+      simp only [hpass, if_true, pure, Except.pure]
+    rw [hflex]
+    simp only [frExpand_general _ hff _ hok, pure, Except.pure]
+    congr 1
+  · rw [sumBase_expand _ _ hok, hz.1, hz.2]
+    have h2 : free = b - sumBase (fns.map (prepG b)) - ((fns.length : Int) - 1 : Int) * gap := by
+      rw [hfree]; unfold tracksFree; rw [List.length_map]
+    have hle : left / max 1 (frSum fns) * frSum fns ≤ left := by
+      have h1 : left / max 1 (frSum fns) * frSum fns ≤ left / max 1 (frSum fns) * max 1 (frSum fns) :=
+        Rat.mul_le_mul_of_nonneg_left hmS hff
+      rw [Rat.div_mul_cancel hmne] at h1
+      exact h1
+    grind
+
+-- tracks_no_overflow_partial: `minmax(0, 10px) 0.5fr` in 100px, `justify-content: start`: 1.3 leaves 90 of the 100px of
+-- free space (the first track stops at its limit), 1.4 hands out half of it: 10 + 45 <= 100
+example :
+    let fns : List (Breadth × Breadth) := [(.px 0, .px 10), (.auto, .fr (1/2))]
+    (∀ fn ∈ fns, fn = (.px 0, .px 10) ∨ fn = (.auto, .fr (1/2))) ∧
+    tracksFree 100 0 (fns.map (prepG 100)) = 100 ∧
+    (maximize (100 / 2) (fns.map (prepG 100)) 100).2 = 90 ∧
+    (resolveTracks fns (some 100) [] 0 true 0 false).toOption.map (List.map (·.base)) = some [10, 45] := by
+  decide +kernel
+
 end Wp.C12
